@@ -10,7 +10,7 @@ use fidget_core::vm::{GenericVmFunction, VmFunction, VmTrace};
 use fidget_jit::JitFunction;
 use serde_json::json;
 
-pub const FAMILY: [&str; 12] = [
+pub const FAMILY: [&str; 13] = [
     "c: 1.5 (no variable)",
     "x",
     "x + y",
@@ -23,6 +23,7 @@ pub const FAMILY: [&str; 12] = [
     "min(max(and(x,y), or(z,1)), x*y) (4 choices)",
     "sqrt(x*x + y*y) - 1",
     "[max(y, 0.5), sin(y)] (only y, 2 outputs)",
+    "[x*y, x-y, x-y] (one node bound to two outputs)",
 ];
 
 pub fn build_family(k: usize) -> (Context, Vec<Node>) {
@@ -74,7 +75,12 @@ pub fn build_family(k: usize) -> (Context, Vec<Node>) {
             let q = c.sqrt(s).unwrap();
             vec![c.sub(q, 1.0).unwrap()]
         }
-        _ => vec![c.max(y, 0.5).unwrap(), c.sin(y).unwrap()],
+        11 => vec![c.max(y, 0.5).unwrap(), c.sin(y).unwrap()],
+        _ => {
+            let p = c.mul(x, y).unwrap();
+            let d = c.sub(x, y).unwrap();
+            vec![p, d, d]
+        }
     };
     (c, roots)
 }
